@@ -8,6 +8,7 @@ Concrete(b) == CASE b = "INTEGER" -> <<"0", "1", "-1", "7">> [] b = "REAL" -> <<
 CONSTANTS Vals, Bad, MaxLo, MaxSpan, MaxLen
 VARIABLES cfg, ops
 Kinds == {"ARRAY", "LIST", "BAG", "SET"}
+(* Bad + 1 is PyAggr!Twin: the ill-typed value that compares equal to the well-typed value 1 *)
 Legal(r) == /\ (r.kind = "ARRAY" => ~r.unb /\ r.lo <= r.hi)
             /\ (r.kind # "ARRAY" => r.lo >= 0 /\ (r.unb \/ r.lo <= r.hi) /\ ~r.opt)
             /\ (r.kind \in {"BAG", "SET"} => ~r.uniq)
@@ -15,9 +16,9 @@ Cfgs == {r \in [kind : Kinds, lo : 0..MaxLo, hi : 0..(MaxLo + MaxSpan), unb : BO
            Legal(r) /\ (r.unb => r.hi = 0) /\ (~r.unb => r.hi <= r.lo + MaxSpan)}
 Idx(r) == (r.lo - 1)..((IF r.unb THEN r.lo + 2 ELSE r.hi) + 1)
 Ops(r) == IF r.kind \in {"ARRAY", "LIST"}
-          THEN {[op |-> "set", i |-> i, v |-> v] : i \in Idx(r), v \in Vals \cup {Bad}}
+          THEN {[op |-> "set", i |-> i, v |-> v] : i \in Idx(r), v \in Vals \cup {Bad, Bad + 1}}
                \cup {[op |-> "get", i |-> i, v |-> 0] : i \in Idx(r)}
-          ELSE {[op |-> "add", i |-> 0, v |-> v] : v \in Vals \cup {Bad}}
+          ELSE {[op |-> "add", i |-> 0, v |-> v] : v \in Vals \cup {Bad, Bad + 1}}
 Len4(r) == IF r.kind \in {"ARRAY", "LIST"} THEN MaxLen ELSE MaxLen + 3
 Init == cfg \in Cfgs /\ ops = <<>>
 Next == \E o \in Ops(cfg) : ops' = Append(ops, o) /\ UNCHANGED cfg
